@@ -15,7 +15,7 @@ def check(run):
     quick = run.tier == "quick"
     g = tsgen.TsGen(run.seed + 800)
     r = random.Random(run.seed + 801)
-    n = 150 if quick else 2500
+    n = 150 if quick else 10000
     base, variants = [], []
     for i in range(n):
         decls, parsers = g.forced_program(i) if i % 3 == 0 else g.program()
